@@ -4,6 +4,7 @@ import (
 	"context"
 	"errors"
 	"fmt"
+	"net"
 	"sort"
 	"sync"
 	"time"
@@ -43,7 +44,10 @@ type callSpec struct {
 	Joins     []jv      `json:"joins,omitempty"`
 	Syncs     []sv      `json:"syncs,omitempty"`
 	Fetches   []bool    `json:"fetches,omitempty"`
-	NoCreate  []int64   `json:"nocreate,omitempty"`
+	NoCreate  []int64   `json:"nocreate,omitempty"` // ListOffsets always refused for these partitions
+	// ListOffsets requests number From..To-1 (per partition, per call) are refused: "notleader" (NotLeaderForPartition) or "drop".
+	// client.GetOffset retries once, so [0,2) makes the first ConsumePartition fail, [2,4) the fallback attempt.
+	Faults []faultSpec `json:"faults,omitempty"`
 	Plan      []int64   `json:"plan"` // default plan handed out by a sync that is not scripted
 	SetupOK   bool      `json:"setup_ok"`
 	CleanupOK bool      `json:"cleanup_ok"`
@@ -55,6 +59,49 @@ type callSpec struct {
 	Commits []bool   `json:"commits,omitempty"`
 	Produce []int64  `json:"produce,omitempty"` // records appended after the call
 }
+type faultSpec struct {
+	P    int64  `json:"p"`
+	From int    `json:"from"`
+	To   int    `json:"to"`
+	Kind string `json:"kind"`
+}
+
+// faultAt: is ListOffsets request number idx for partition p refused in this call, and how
+func (c *callSpec) faultAt(p int64, idx int) string {
+	if has(c.NoCreate, p) {
+		return "unknown"
+	}
+	for _, f := range c.Faults {
+		if f.P == p && idx >= f.From && idx < f.To {
+			return f.Kind
+		}
+	}
+	return ""
+}
+
+// attempts: outcome of the two ConsumePartition attempts of newConsumerGroupClaim under the fault windows
+// (each attempt = GetOffset(newest), GetOffset(oldest), each with one internal retry)
+func (c *callSpec) attempts(p int64) (bool, bool) {
+	idx := 0
+	getOffset := func() bool {
+		if c.faultAt(p, idx) != "" {
+			idx++
+			if c.faultAt(p, idx) != "" {
+				idx++
+				return false
+			}
+		}
+		idx++
+		return true
+	}
+	attempt := func() bool { return getOffset() && getOffset() }
+	a1 := attempt()
+	if !a1 {
+		return false, true
+	}
+	return true, attempt()
+}
+
 type caseSpec struct {
 	Retries       int        `json:"retries"`
 	HbRetries     int        `json:"hb_retries"`
@@ -167,6 +214,7 @@ type engine struct {
 	cancel    context.CancelFunc
 
 	setupDone  bool
+	listN      map[int64]int
 	started    map[int64]bool
 	steady     map[int64]bool
 	expect     map[int64]bool
@@ -309,7 +357,7 @@ func (e *engine) install(brokers []*sarama.MockBroker) {
 			e.joinPhase = false
 			e.expect = map[int64]bool{}
 			for _, p := range v.Plan {
-				if !has(e.call.NoCreate, p) {
+				if a1, a2 := e.call.attempts(p); a1 && a2 {
 					e.expect[p] = true
 				}
 			}
@@ -392,8 +440,17 @@ func (e *engine) install(brokers []*sarama.MockBroker) {
 		e.mu.Lock()
 		defer e.mu.Unlock()
 		id := partID(topic, p)
-		if e.call != nil && has(e.call.NoCreate, id) {
-			return 0, 3
+		if e.call != nil {
+			k := e.call.faultAt(id, e.listN[id])
+			e.listN[id]++
+			switch k {
+			case "unknown":
+				return 0, 3
+			case "notleader":
+				return 0, 6
+			case "drop":
+				return 0, sarama.VerifC07DropCode
+			}
 		}
 		b := e.lg[id]
 		if b == nil {
@@ -597,6 +654,20 @@ func classify(err error) string {
 
 const consumeBound = 4 * time.Second
 
+// listen: a listener on an ephemeral port; waits when the machine is short of ports / descriptors (long thorough runs)
+func listen() net.Listener {
+	for i := 0; ; i++ {
+		l, err := net.Listen("tcp", "localhost:0")
+		if err == nil {
+			return l
+		}
+		if i > 600 {
+			panic("c07corr: net.Listen: " + err.Error())
+		}
+		time.Sleep(100 * time.Millisecond)
+	}
+}
+
 func runCase(cs caseSpec) obs {
 	e := &engine{cs: cs, store: map[int64]int64{}, lg: map[int64]*[2]int64{}, extra: map[string]int32{}, closeDone: make(chan struct{})}
 	topicSet := map[string]bool{}
@@ -613,8 +684,8 @@ func runCase(cs caseSpec) obs {
 	}
 	sort.Strings(topics)
 
-	b1 := sarama.NewMockBroker(quiet{}, 1)
-	b2 := sarama.NewMockBroker(quiet{}, 2)
+	b1 := sarama.NewMockBrokerListener(quiet{}, 1, listen())
+	b2 := sarama.NewMockBrokerListener(quiet{}, 2, listen())
 	defer b1.Close()
 	defer b2.Close()
 	e.ci = -1
@@ -667,6 +738,7 @@ func runCase(cs caseSpec) obs {
 		e.hbArmed = call.Trigger == "hb-first"
 		e.cancel = cancel
 		e.started, e.steady, e.expect = map[int64]bool{}, map[int64]bool{}, map[int64]bool{-1: true}
+		e.listN = map[int64]int{}
 		e.allStarted, e.steadyCh = make(chan struct{}), make(chan struct{})
 		steadyCh := e.steadyCh
 		co := e.co
